@@ -451,7 +451,7 @@ def main(argv=None):
     hb = hist.history_boundary_cases()
     cases += hb[ck.seed % 3::3] if quick else hb
     cases += hist.multi_boundary_cases()
-    n_scripts = 60 if quick else 1500
+    n_scripts = 60 if quick else 1000
     cases += [hist.random_script(ck.rng, 1) for _ in range(n_scripts)]
     cases += [hist.random_script(ck.rng, ck.rng.choice([2, 2, 3])) for _ in range(n_scripts // 2)]
     results = run_impl_batch(cases)
